@@ -554,6 +554,15 @@ def run(ck: Check):
         longs.append(("long_ordered", base, other, rng.choice([5, 10])) if k % 4 < 2 else ("long_ordered", other, base, rng.choice([5, 10])))
     import numpy as _np
 
+    # heavy-tailed long samples (own generator): a few far outliers make the "auto" rule ask for thousands of bins; the
+    # distances are those of exactly these histograms
+    _rs = _np.random.RandomState(20202)
+    for k in range(1 if not thorough else 3):
+        Xh = _rs.standard_t(2, size=20000).tolist()
+        Yh = (_rs.standard_t(2, size=6000) * 1.3 + 0.2).tolist()
+        nbx = len(_np.histogram_bin_edges(_np.array(Xh), bins="auto")) - 1
+        ck.count("heavy_tail_auto_bins", nbx)
+        longs.append(("long_heavy_tail", Xh, Yh, 10))
     for fam, X, Y, nb in longs:
         # JS / KL only, against the textbook value on the auto histograms of the WHOLE samples (no Coq run: the
         # histogram counts are an oracle input of the model anyway)
